@@ -78,7 +78,31 @@ func vJudgeC02(cs *vCase, c *Classifier, in []byte, res Results, physLine []int,
 func vAdversarial(r *rand.Rand, raw string, vocab []string, variant int) string {
 	lines := strings.Split(strings.TrimRight(raw, "\n"), "\n")
 	words := strings.Fields(raw)
-	switch variant % 5 {
+	switch variant % 7 {
+	case 5: // the end of the copy damaged, then (after a short gap) its tail phrase again
+		if len(words) > 40 {
+			k := 2 + r.Intn(6)
+			w := append([]string{}, words...)
+			for i := len(w) - k; i < len(w); i++ {
+				w[i] = vocab[r.Intn(len(vocab))]
+			}
+			tail := words[len(words)-(8+r.Intn(25)):]
+			gap := strings.Fields(vOOVLine(r))[:1+r.Intn(3)]
+			return strings.Join(w, " ") + " " + strings.Join(gap, " ") + " " + strings.Join(tail, " ") + "\n"
+		}
+		return raw
+	case 6: // the head of the copy damaged, preceded by its head phrase
+		if len(words) > 40 {
+			k := 2 + r.Intn(6)
+			w := append([]string{}, words...)
+			for i := 0; i < k; i++ {
+				w[i] = vocab[r.Intn(len(vocab))]
+			}
+			head := words[:8+r.Intn(25)]
+			gap := strings.Fields(vOOVLine(r))[:1+r.Intn(3)]
+			return strings.Join(head, " ") + " " + strings.Join(gap, " ") + " " + strings.Join(w, " ") + "\n"
+		}
+		return raw
 	case 0: // edits at the very start and end
 		if len(words) > 6 {
 			words[0] = vOOVWord(r)
@@ -238,7 +262,9 @@ func TestVerifC02(t *testing.T) {
 					post := strings.Fields(vOOVBlock(r, 1+r.Intn(3)))
 					mid := strings.Fields(vMutate(r, strings.Join(d.words, " "), []float64{0, 0.03, 0.1}[r.Intn(3)], vocab))
 					all := append(append(append([]string{}, pre...), mid...), post...)
-					allowKF := cd.gen == "kf-witness"
+					// continuations over three lines and hyphen lines followed by a blank line are
+					// part of the ordinary layouts since the repair of KF-C02-1
+					allowKF := cd.gen == "kf-witness" || r.Intn(2) == 0
 					var text string
 					var phys []int
 					var kf bool
